@@ -1,5 +1,5 @@
 """Property -> rule families.  Each entry is a list of callables taking the Run context."""
-import rf_alloc, rf_state, rf_tables, rf_sig, rf_union, rf_flow, rf_vocab, rf_mir2c, rf_code, rf_bounds, rf_fold, rf_proto, rf_dispatch, rf_keys, rf_abi, rf_x86, rf_inline
+import rf_alloc, rf_state, rf_tables, rf_sig, rf_union, rf_flow, rf_vocab, rf_mir2c, rf_code, rf_bounds, rf_fold, rf_proto, rf_dispatch, rf_keys, rf_abi, rf_x86, rf_inline, rf_templates
 from lib import facts as F
 
 
@@ -228,6 +228,19 @@ def c20_rf7h(run):
     run.min_instances('RF7h', 150)
 
 
+def c03_rf11(run):
+    rf_templates.rf11(run)
+    run.min_instances('RF11', 40)
+    rf_dispatch.rf7g(run)
+    run.min_instances('RF7g', 60)
+    rf_code.rf4d(run)
+
+
+def c06_rf11(run):
+    rf_templates.rf11(run)
+    run.min_instances('RF11', 40)
+
+
 def c05_rf12(run):
     rf_keys.rf12(run)
     run.min_instances('RF12', 25)
@@ -265,8 +278,9 @@ def c02_rf26(run):
 
 
 PLAN = {
+    'C03': [c03_rf11],
     'C05': [c05_rf10, c05_rf12],
-    'C06': [c06_rf10],
+    'C06': [c06_rf10, c06_rf11],
     'C13': [c13_rf16],
     'C14': [c14_rf16f],
     'C16': [c16_rf16],
